@@ -9,6 +9,7 @@
     zero_pad / chain / append after `left`   k - left
     islice start step                        start + (k-1)*step + 1
     resample                                 the initial take, then one item per unit of position
+    resample, step stream                    k - 1 step values (the step is read after the yield)
     Streamix event                           k - (outputs before the event starts)
     chains                                   composition of the above
   `needOf d 0 = 0` for every stage: construction reads nothing.
@@ -36,6 +37,25 @@ def needResample (order : Nat) (step : Rat) (k : Nat) : Nat :=
     let frac : Rat := (order + 1 : Nat) / 2 - ((order + 1) / 2 : Nat)
     rsPrefill order + (((k - 1 : Nat) : Rat) * step - frac).ceil.toNat
 
+def sumRat : List Rat → Rat
+  | [] => 0
+  | x :: xs => x + sumRat xs
+
+/-- `resample` with a time-varying step: output `k` sits at position `sum of the first k-1 step
+    values`; beyond the given step values the step is taken as 1 (one item per output) -/
+def needResampleTV (order : Nat) (steps : List Rat) (k : Nat) : Nat :=
+  if k = 0 then 0
+  else
+    let frac : Rat := (order + 1 : Nat) / 2 - ((order + 1) / 2 : Nat)
+    rsPrefill order + (sumRat (steps.take (k - 1)) - frac).ceil.toNat + (k - 1 - steps.length)
+
+/-- step values pulled by `resample` when `k` outputs have been delivered: the step that leads to
+    output `k+1` is read only when that output is demanded -/
+def auxNeedLag1 (k : Nat) : Nat := k - 1
+
+/-- items pulled from the data of a Streamix event with (absolute) time `delta` -/
+def auxNeedEvent (delta : Rat) (k : Nat) : Nat := k - (delta - 1 / 2).ceil.toNat
+
 /-- outputs of a Streamix before an event with time `delta` starts -/
 def smixStartSpec (delta : Rat) : Nat := (delta - 1 / 2).ceil.toNat
 
@@ -50,6 +70,7 @@ def needOf : Desc → Nat → Nat
   | .stft size hop true, k => needBlocks size hop (ceilDiv k hop)
   | .stft size hop false, k => needBlocks size hop k
   | .resample order step, k => needResample order step k
+  | .resampleTV order steps, k => needResampleTV order steps k
   | .smix delta, k => k - smixStartSpec delta
 
 def needOfChain : List Desc → Nat → Nat
@@ -63,6 +84,7 @@ def Desc.Valid : Desc → Prop
   | .stft size hop _ => 0 < hop ∧ hop ≤ size
   | .islice _ step => 0 < step
   | .resample _ step => 0 < step
+  | .resampleTV _ steps => ∀ s ∈ steps, 0 ≤ s
   | .smix delta => 0 ≤ delta
   | _ => True
 
